@@ -76,11 +76,26 @@ impl RegexMatcherBuilder {
         // regex engine is likely to handle this case for us since it's so
         // simple, but the idea applies.)
         let fast_line_regex = InnerLiterals::new(&chir, &regex).one_regex()?;
+        #[cfg(feature = "verif-hooks")]
+        let verif = std::sync::Arc::new(VerifInfo {
+            final_hir: chir.hir().clone(),
+            fast_line_literals: InnerLiterals::new(&chir, &regex)
+                .verif_literals(),
+        });
 
         // We override the line terminator in case the configured HIR doesn't
         // support it.
         let mut config = self.config.clone();
         config.line_terminator = chir.line_terminator();
+        #[cfg(feature = "verif-hooks")]
+        return Ok(RegexMatcher {
+            config,
+            regex,
+            fast_line_regex,
+            non_matching_bytes,
+            verif,
+        });
+        #[cfg(not(feature = "verif-hooks"))]
         Ok(RegexMatcher { config, regex, fast_line_regex, non_matching_bytes })
     }
 
@@ -377,6 +392,33 @@ pub struct RegexMatcher {
     fast_line_regex: Option<Regex>,
     /// A set of bytes that will never appear in a match.
     non_matching_bytes: ByteSet,
+    /// Verification hook: what this matcher was compiled from.
+    #[cfg(feature = "verif-hooks")]
+    verif: std::sync::Arc<VerifInfo>,
+}
+
+/// Verification hook (feature `verif-hooks` only): the exact HIR and inner
+/// literals a matcher was compiled from.
+#[cfg(feature = "verif-hooks")]
+#[derive(Debug)]
+struct VerifInfo {
+    final_hir: regex_syntax::hir::Hir,
+    fast_line_literals: Option<Vec<Vec<u8>>>,
+}
+
+#[cfg(feature = "verif-hooks")]
+impl RegexMatcher {
+    /// Verification hook: the HIR the main regex was compiled from, after
+    /// all rewriting (terminator stripping, word/whole-line wrapping).
+    pub fn verif_final_hir(&self) -> &regex_syntax::hir::Hir {
+        &self.verif.final_hir
+    }
+
+    /// Verification hook: the literals of the fast candidate-line regex, or
+    /// `None` when no such regex was built.
+    pub fn verif_fast_line_literals(&self) -> Option<&[Vec<u8>]> {
+        self.verif.fast_line_literals.as_deref()
+    }
 }
 
 impl RegexMatcher {
